@@ -58,6 +58,9 @@ def worlds(tier):
     g, t = reqs(3, release=["sym", 0, 3], deadline=["sym", 0, 12])
     ws.append(w.W("3req-1model-second-worker-without-model", g, GPU1x2, "CLOCKWORK", models={"M0": model([1, 2], rts={2: 3}), "M1": model([1])}, tasks=t, preload={"0:0": ["M0"], "0:1": ["M1"]}, split=8,
                   weight=100, retry_loops=True))
+    # the model is still being loaded (usable from t=4) when the first requests arrive
+    g, t = reqs(2, release=["sym", 0, 6], deadline=["sym", 0, 16])
+    ws.append(w.W("2req-1model-b[1,2]-model-still-loading-until-4", g, GPU1, "CLOCKWORK", models={"M0": model([1, 2])}, tasks=t, loading={"0:0": {"M0": 4}}, split=6, weight=30, retry_loops=True))
     # a scheduler that is configured to take time itself (batch of two only: the first request waits for a partner)
     g, t = reqs(2, release=["sym", 0, 6], deadline=["sym", 0, 14])
     ws.append(w.W("2req-1model-b[2]-nonzero-scheduler-runtime", g, GPU1, "CLOCKWORK", models={"M0": model([2])}, tasks=t, preload={"0:0": ["M0"]}, split=6, weight=30, retry_loops=True,
